@@ -330,7 +330,10 @@ class NumpyDataWrapper(SourceDataWrapper):
         """
 
         if self._dtype == self._data_source.dtype:
-            return self._data_source[start:stop]
+            if stop is None:
+                stop = self._n_rows
+            # start and stop are relative to the row window [from_idx, to_idx)
+            return self._data_source[self._from_idx + start:self._from_idx + stop]
 
         return super().load_chunk(start, stop)
 
